@@ -19,6 +19,8 @@ TRANSLATOR_PARTS = ["scalars_key", "defaults"]   # defaults: Props/C04_Defaults.
 # the event-metric glue (util._fast_hit_windows, util.match_events, onset / beat f_measure, segment.detection / deviation)
 # is REGENERATED too (translate/evglue.py -> MirGen/EvGlue.lean); Props/C04_GenGlue.lean proves it equal to the hand models
 TRANSLATOR_PARTS += ["evglue"]
+# ... and the transcription P / R / F functions (translate/trmatch.py -> MirGen/TrMatch.lean; Props/C04_GenTr.lean)
+TRANSLATOR_PARTS += ["trmatch"]
 _here = os.path.dirname(os.path.abspath(__file__))
 _props = os.path.join(os.path.dirname(os.path.dirname(_here)), "lean", "MirProofs", "Props")
 LEAN_MODULES = sorted("MirProofs.Props." + os.path.basename(f)[:-5]
@@ -141,68 +143,61 @@ def _retarget_glue(case, fn):
                 nontrivial=case.nontrivial, post=case.post)
 
 
-def _event_lists(rng, tier):
-    """(ref, est, window) on the 1/32 lattice: unsorted, duplicated, empty, pairs exactly at the window"""
-    n = (260 if tier == "quick" else 4000)
-    for k in range(n):
-        w = rng.choice([_Fr(0), _Fr(1, 32), _Fr(1, 16), _Fr(1, 8), _Fr(1, 4), _Fr(1, 2), _Fr(-1, 8) if k % 29 == 0 else _Fr(1, 8)])
-        nr, ne = rng.choice([0, 1, 2, 3, 5, 8, 12]), rng.choice([0, 1, 2, 3, 5, 8, 12])
-        ref = [_Fr(rng.randint(0, 64), 32) for _ in range(nr)]
-        est = []
-        for _ in range(ne):
-            if ref and rng.random() < 0.7:
-                est.append(rng.choice(ref) + rng.choice([-1, 1, 0]) * (w + rng.choice([0, 0, _Fr(1, 32)])))
-            else:
-                est.append(_Fr(rng.randint(0, 64), 32))
-        if rng.random() < 0.5:
-            ref.sort()
-        if rng.random() < 0.5:
-            est.sort()
-        yield ref, est, w
-
-
 def suite_gen_evglue(rng, tier, shard, nshards):
     """the translated definitions vs the real functions: util._fast_hit_windows (hit pairs compared as sets),
     util.match_events (pairs; sizes only when the reference holds equal values, whose argsort order NumPy leaves open) on
     unsorted / duplicated / empty event lists with pairs exactly at the window; onset.f_measure, beat.f_measure,
     segment.detection, segment.deviation on the existing onset / beat / boundary streams."""
-    from mir_eval import util as U
-    for ref, est, w in _event_lists(rng, tier):
-        r, e = _np.array([float(x) for x in ref]), _np.array([float(x) for x in est])
-        info = {"op": "gen.evglue", "ref": [str(x) for x in ref], "est": [str(x) for x in est], "window": str(w)}
-
-        def hits(r=r, e=e, w=w):
-            a, b = U._fast_hit_windows(r, e, float(w))
-            return sorted([int(x), int(y)] for x, y in zip(a, b))
-        yield Case("gen.evglue", ["util._fast_hit_windows", ref, est, w], hits, tag="gen _fast_hit_windows",
-                   info=dict(info, fn="util._fast_hit_windows"), nontrivial=bool(ref and est),
-                   post=lambda m: m if not isinstance(m, list) else sorted([a, b] for a, b in zip(m[0], m[1])))
-        dup = len(set(ref)) != len(ref)
-        if dup:
-            yield Case("gen.evglue", ["util.match_events", ref, est, w],
-                       lambda r=r, e=e, w=w: len(U.match_events(r, e, float(w))), tag="gen match_events (size)",
-                       info=dict(info, fn="util.match_events"), nontrivial=bool(ref and est),
-                       post=lambda m: m if not isinstance(m, list) else len(m))
-        else:
-            yield Case("gen.evglue", ["util.match_events", ref, est, w],
-                       lambda r=r, e=e, w=w: [[int(a), int(b)] for a, b in U.match_events(r, e, float(w))],
-                       tag="gen match_events", info=dict(info, fn="util.match_events"), nontrivial=bool(ref and est))
+    import evglue_cases
+    for c in evglue_cases.util_cases(rng, tier):
+        yield c
+    import mir_eval.tempo as _T
+    for _ in range(120 if tier == "quick" else 2000):
+        rt = [_Fr(rng.choice([0, 0, 60, 90, 120, 121, -1]), 1) for _ in range(rng.choice([2, 2, 2, 2, 1, 3, 0]))]
+        et = [_Fr(rng.choice([0, 60, 64, 90, 120, 180, -5]), 1) for _ in range(rng.choice([2, 2, 2, 2, 1, 3]))]
+        wt = rng.choice([_Fr(0), _Fr(1, 4), _Fr(1, 2), _Fr(1), _Fr(5, 4), _Fr(-1, 8)])
+        yield Case("gen.evglue", ["tempo.validate", rt, wt, et],
+                   lambda rt=rt, wt=wt, et=et: _T.validate(_np.array([float(x) for x in rt]), float(wt),
+                                                           _np.array([float(x) for x in et])),
+                   tag="gen tempo.validate", info={"op": "gen.evglue", "fn": "tempo.validate", "ref": [str(x) for x in rt],
+                                                   "weight": str(wt), "est": [str(x) for x in et]})
+        tol = rng.choice([_Fr(2, 25), _Fr(0), _Fr(1, 2), _Fr(1), _Fr(3, 2), _Fr(-1, 10), _Fr(1, 15)])
+        yield Case("gen.evglue", ["tempo.detection", rt, wt, et, tol],
+                   lambda rt=rt, wt=wt, et=et, tol=tol: list(_T.detection(_np.array([float(x) for x in rt]), float(wt),
+                                                                       _np.array([float(x) for x in et]), float(tol))),
+                   tag="gen tempo.detection faults", info={"op": "gen.evglue", "fn": "tempo.detection",
+                                                          "ref": [str(x) for x in rt], "weight": str(wt),
+                                                          "est": [str(x) for x in et], "tol": str(tol)})
     lim = 200 if tier == "quick" else None
     for key, fn in (("onset.onset.f_measure", "onset.f_measure"), ("onset.onset.exhaustive", "onset.f_measure"),
                     ("beat.beat.f_measure", "beat.f_measure"), ("boundary.segment.detection", "segment.detection"),
                     ("boundary.segment.deviation", "segment.deviation"), ("fixtures.onset", "onset.f_measure"),
-                    ("fixtures.beat", "beat.f_measure"), ("fixtures.segment_boundary", None)):
+                    ("fixtures.beat", "beat.f_measure"), ("fixtures.segment_boundary", None),
+                    ("tempo.tempo.detection", "tempo.detection"), ("tempo.tempo.exhaustive", "tempo.detection"),
+                    ("fixtures.tempo", "tempo.detection")):
         if key not in SUITES:
             continue
         for k, c in enumerate(SUITES[key](rng, tier, shard, nshards)):
             if lim is not None and k >= lim:
                 break
             f = fn or c.op
-            if c.op == f and f in ("onset.f_measure", "beat.f_measure", "segment.detection", "segment.deviation"):
+            if c.op == f and f in ("onset.f_measure", "beat.f_measure", "segment.detection", "segment.deviation",
+                                   "tempo.detection", "tempo.validate"):
                 yield _retarget_glue(c, f)
 
 
 SUITES["gen_evglue"] = suite_gen_evglue
+
+
+def suite_gen_trmatch_prf(rng, tier, shard, nshards):
+    import evglue_cases
+    for c in evglue_cases.trmatch_cases(rng, tier, shard, nshards, only=("onset_precision_recall_f1",
+                                                                        "offset_precision_recall_f1",
+                                                                        "precision_recall_f1_overlap")):
+        yield c
+
+
+SUITES["gen_trmatch.prf"] = suite_gen_trmatch_prf
 
 CHECKERS = {"documented_defaults": check_defaults}
 ORACLES = {"documented_defaults": gen_defaults}
